@@ -94,7 +94,7 @@ func (p *Packet) Length() int {
 
 // Frames returns the number of data frames in the packet
 func (p *Packet) Frames() int {
-	if p.shape == nil {
+	if p.shape == nil || p.format == nil {
 		return 0
 	}
 	nchan := 1
